@@ -43,6 +43,28 @@ reg("C15","ignore","exploration","reference-model comparison against a frozen co
     "random .dockerignore lists x random trees: real dockerignore.NewIgnorer -> core.Scan -> ReifyPhantomDirectories (nil and populated ancestor) vs the frozen upstream matcher with the build-context walk; every disagreeing path is classified with a second model (mutagen's documented algorithm): equal to it = the recorded known finding (no parent inheritance), different = new violation.",
     "frozen copy of patternmatcher.go (Apache-2.0) under internal/ignorex; pattern grammar restricted to what both sides define (no backslashes, comments)")
 
+reg("C08","fsops","exploration","disk re-observation after the real core.Transition with interference injected between scan and transition",
+    "random disk trees -> real core.Scan -> plan from the snapshot -> interference on planned paths (edit with unique token, same-size edit, chmod, new inode with equal size+mtime, link retarget, new child in a directory to be removed, file->directory, objects appearing at creation paths) -> real core.Transition; every interfered object must be exactly as the interference left it and a problem reported; non-interfered transitions must be carried out. Also as uid 65534.",
+    "interference during (not before) the transition - the check-then-act windows the repository documents - is not attacked")
+reg("C12","fsops","exploration","reference-model comparison: real core.Scan vs an independent lstat/readdir/readlink/sha1 walker",
+    "random trees (files, modes incl. group/other-only x bits, links of every portability class, FIFOs, non-UTF-8 names, temporary names, ignored names) x 3 symlink modes x 2 permissions modes x 2 probe modes; entries, digests, executability, link targets, untracked/problematic classification, four counters and the digest cache must agree; mode-000 content judged in an unprivileged child.",
+    "ext4 preserves executability and does not decompose Unicode, so those two behaviours are observed with one value only")
+reg("C13","fsops","exploration","differential runtime comparison: accelerated real scans vs cold real scans over multi-step edit histories",
+    "histories of random edits (incl. single-attribute edits, kind changes, empty-directory swaps, renames); after each step the accelerated scan (previous accelerated state, recheck = changed paths) must be proto.Equal to a cold scan incl. counters; accelerated outputs feed the next step; both ignore syntaxes.",
+    "precondition enforced by the harness: every content change alters inode, size or mtime (inode-reuse trap guarded); cold scans are tied to the independent walker by C12")
+reg("C17","fsops","exploration","inotify sensor on a canary tree outside the root + content re-observation",
+    "roots with links into a watched canary tree and directories swapped for such links between scan and operation (also racing scans); operations: core.Scan (3 link modes), core.Transition plans crossing the link, rsync transmit and receive, local endpoint Stage/Transition; zero inotify events and unchanged canary required, crossing must be reported; control accesses prove the sensor is live.",
+    "stat through a link raises no inotify event and is outside the property's verb list")
+reg("C11","ctrl","exploration","journal invariants over scripted endpoints driven by the real Manager/controller",
+    "scripted snapshots for every root-level situation (nil/file/problematic/directory with 0-3 entries per side, preset ancestor) x 4 modes through the real controller: cycles whose inputs show root deletion, root type change or one-sided emptying contain no Stage/Transition call, the session lists a halted status, a waited flush fails, only Resume produces new scans.",
+    "endpoints are scripted, so 'neither root changed' is observed as 'no Stage/Supply/Transition call'; must-halt is decided from the inputs by the monitor's own rule")
+reg("C29","ctrl","exploration","history checking over a journal of scripted-endpoint calls and session files (interval overlap, ordering)",
+    "random concurrent interleavings of Create/Pause/Resume/Flush/Reset/Terminate/manager restart against journaling scripted endpoints with random latencies: no endpoint call executes inside a (Pause returned, Resume called) interval; paused state survives restart; a successful waited flush has a full scan started after the request and a completed cycle before return; terminated sessions leave no files and no later calls; reset keeps root content (real local roots). Race detector on.",
+    "a pause interval is judged only when no Resume overlaps the Pause; restarts happen with no command in flight")
+reg("C40","ctrl","exploration","reference-model comparison (independent selector evaluator, reference path ordering)",
+    "real Manager with 0-40 paused sessions, random names/labels: List by identifiers, names and label selectors (restricted grammar) returns exactly the reference's set in creation order and fails on a miss; conflict/problem lists sorted depth-first and truncated with exact excluded counts; fastpath.Less vs a component-wise comparator incl. strict-weak-order laws.",
+    "identifier-prefix specifications are not exercised")
+
 NOT_APPLICABLE = {}
 def main():
     props=[json.loads(l)["id"] for l in open("/verif/properties.jsonl")]
